@@ -4,22 +4,37 @@ INC  := $(REPO)/code/include
 HDRS := $(wildcard $(INC)/*.hpp)
 SIMH := $(wildcard sim/*.hpp)
 CXX  ?= g++
+CC   ?= gcc
 CLANGXX ?= clang++
-COMMON := -std=c++17 -I$(INC) -Isim -g -Wall -Wno-unused-function -Wno-unused-variable -DALLENABY_RLBOX_VERIF
+B := build
+ABSB := $(abspath $(B))
+COMMON := -std=c++17 -I$(INC) -Isim -g -Wall -Wno-unused-function -Wno-unused-variable -DALLENABY_RLBOX_VERIF -DGUESTLIB_DIR='"$(ABSB)"'
 PLAIN := $(COMMON) -O1
 ASAN  := $(COMMON) -O1 -fsanitize=address -fno-omit-frame-pointer -DSIM_BUILD_NAME='"asan"'
-B := build
+TLS   := $(COMMON) -O1 -DRLBOX_EMBEDDER_PROVIDES_TLS_STATIC_VARIABLES -DSIM_BUILD_NAME='"tls"'
+LIBS := -lpthread -ldl
 
-WORLDS_PLAIN := apptoken mem
-WORLDS_ASAN  :=
+TARGETS := apptoken mem callback callback.tls
 
-all: $(addprefix $(B)/,$(WORLDS_PLAIN)) $(addprefix $(B)/,$(addsuffix .asan,$(WORLDS_ASAN)))
+all: $(addprefix $(B)/,$(TARGETS))
+
+GUESTSO := $(B)/libguest0.so $(B)/libguest1.so
+
+$(B)/guestlib.o: sim/guestlib.c | $(B)
+	$(CC) -O1 -g -c $< -o $@
+$(B)/libguest%.so: sim/guestlib.c | $(B)
+	$(CC) -O1 -g -shared -fPIC -DLIB_ID=$* $< -o $@
+
+$(B)/callback: worlds/callback.cpp $(B)/guestlib.o $(GUESTSO) $(HDRS) $(SIMH) | $(B)
+	$(CXX) $(PLAIN) $< $(B)/guestlib.o -o $@ $(LIBS)
+$(B)/callback.tls: worlds/callback.cpp $(B)/guestlib.o $(GUESTSO) $(HDRS) $(SIMH) | $(B)
+	$(CXX) $(TLS) $< $(B)/guestlib.o -o $@ $(LIBS)
 
 $(B)/%: worlds/%.cpp $(HDRS) $(SIMH) | $(B)
-	$(CXX) $(PLAIN) $< -o $@ -lpthread -ldl
+	$(CXX) $(PLAIN) $< -o $@ $(LIBS)
 
 $(B)/%.asan: worlds/%.cpp $(HDRS) $(SIMH) | $(B)
-	$(CXX) $(ASAN) $< -o $@ -lpthread -ldl
+	$(CXX) $(ASAN) $< -o $@ $(LIBS)
 
 $(B):
 	mkdir -p $(B)
@@ -28,3 +43,4 @@ clean:
 	rm -rf $(B)
 
 .PHONY: all clean
+.SECONDARY:
